@@ -5,6 +5,7 @@ pub mod c04;
 pub mod c05;
 pub mod c06;
 pub mod c07;
+pub mod c08;
 pub mod c09;
 pub mod c10;
 pub mod c11;
@@ -13,6 +14,7 @@ pub mod c13;
 pub mod c14;
 pub mod c15;
 pub mod c16;
+pub mod c17;
 pub mod c18;
 
 use crate::engine::Property;
@@ -26,6 +28,7 @@ pub fn by_id(id: &str) -> Option<Box<dyn Property>> {
         "C05" => Box::new(c05::C05),
         "C06" => Box::new(c06::C06),
         "C07" => Box::new(c07::C07),
+        "C08" => Box::new(c08::C08),
         "C09" => Box::new(c09::C09),
         "C10" => Box::new(c10::C10),
         "C11" => Box::new(c11::C11),
@@ -34,6 +37,7 @@ pub fn by_id(id: &str) -> Option<Box<dyn Property>> {
         "C14" => Box::new(c14::C14),
         "C15" => Box::new(c15::C15),
         "C16" => Box::new(c16::C16),
+        "C17" => Box::new(c17::C17),
         "C18" => Box::new(c18::C18),
         _ => return None,
     })
